@@ -389,7 +389,7 @@ fn run_shard(ctx: &ShardCtx, acc: &mut Acc) {
             }
         }
     }
-    drive(ctx, "slots", ctx.tier.pick(12_000, 250_000), 600, acc, &|ch, acc| {
+    drive(ctx, "slots", ctx.tier.pick(36_000, 250_000), 600, acc, &|ch, acc| {
         let raw = ch.raw();
         let (index, offset, typ) = gen_case(ch, acc);
         acc.sample(|| {
